@@ -457,7 +457,11 @@ def _case(arg) -> Dict[str, Any]:
     if len(arg) > 2:
         evs, inst = _sync_tie_events(arg[2]), 0
     fails: List[Dict[str, Any]] = []
-    inp = {"seed": seed, "instance_id": inst, "zero_weight_launch_edges": zero_w, "events": {0: evs}}
+    files = {0: evs}
+    if (seed // 4) % 3 == 1 and len(arg) <= 2:
+        # a second rank of the job sits in the same directory (another file, numbered differently, other threads): the graph of rank 0 is built from rank 0's events only
+        files[1] = cpgen.gen_cp_events(seed + 13, n_steps=2, n_streams=2, annotations=True, n_threads=2)
+    inp = {"seed": seed, "instance_id": inst, "zero_weight_launch_edges": zero_w, "events": files}
     n = 0
     old = os.environ.get("CRITICAL_PATH_ADD_ZERO_WEIGHT_LAUNCH_EDGE")
     try:
@@ -465,7 +469,7 @@ def _case(arg) -> Dict[str, Any]:
             os.environ["CRITICAL_PATH_ADD_ZERO_WEIGHT_LAUNCH_EDGE"] = "1"
         else:
             os.environ.pop("CRITICAL_PATH_ADD_ZERO_WEIGHT_LAUNCH_EDGE", None)
-        with rt.trace_dir({0: evs}) as d:
+        with rt.trace_dir(files) as d:
             try:
                 ta = rt.lib(fails, "load", inp, rt.load_analysis, d)
                 df0 = ta.t.get_trace(0)
